@@ -2,22 +2,31 @@
    Kept apart from Model/C02_DocQueries.v because it depends on the regenerated
    case-folding table (Gen/C02_CaseFold.v), which the models of other
    properties that reuse the Document queries do not need. *)
-From Coq Require Import ZArith List Bool.
+From Coq Require Import ZArith List Bool FMapPositive.
 From PTK Require Import Lib.Sx Lib.Py Gen.Whitespace Gen.C02_CaseFold Model.Document Model.C02_DocQueries
-  Model.C02_Cache.
+  Model.C02_More Model.C02_Cache.
 Import ListNotations.
 Open Scope Z_scope.
 
 (* re.IGNORECASE between a text character x and a pattern character y: equal, or
-   listed in the table regenerated from CPython's re for the harness alphabet
-   (pairs are (pattern char, text char)).  Exact for texts/needles whose cased
-   characters lie in c02_fold_alphabet. *)
+   listed in the table regenerated from CPython's re over EVERY cased code point
+   (pairs are (pattern char, text char)).  The table (about 3000 pairs) is
+   indexed by the pattern character in a positive map built once;
+   Proofs/C02_CaseFold.v: ceq_fold x y = (x =? y) || mem_pair y x c02_fold_pairs. *)
 Fixpoint mem_pair (a b : Z) (l : list (Z * Z)) : bool :=
   match l with
   | [] => false
   | (p, q) :: r => ((p =? a) && (q =? b)) || mem_pair a b r
   end.
-Definition ceq_fold (x y : Z) : bool := (x =? y) || mem_pair y x c02_fold_pairs.
+Definition fold_add (m : PositiveMap.t (list Z)) (pq : Z * Z) : PositiveMap.t (list Z) :=
+  let k := Z.to_pos (fst pq) in
+  PositiveMap.add k (snd pq :: match PositiveMap.find k m with Some l => l | None => [] end) m.
+Definition fold_map_of (l : list (Z * Z)) : PositiveMap.t (list Z) :=
+  fold_left fold_add l (PositiveMap.empty (list Z)).
+Definition fold_map : PositiveMap.t (list Z) := fold_map_of c02_fold_pairs.
+Definition fold_lookup (m : PositiveMap.t (list Z)) (a b : Z) : bool :=
+  (0 <? a) && match PositiveMap.find (Z.to_pos a) m with Some l => mem_Z b l | None => false end.
+Definition ceq_fold (x y : Z) : bool := (x =? y) || fold_lookup fold_map y x.
 Definition ceq_of (ignore_case : bool) : Z -> Z -> bool :=
   if ignore_case then ceq_fold else ceq_exact.
 
@@ -41,12 +50,31 @@ Definition views (d : doc) : sx :=
       A (cursor_position_row d); A (cursor_position_col d);
       sx_bool (on_first_line d); sx_bool (on_last_line d);
       sx_oz (current_char d); sx_oz (char_before_cursor d);
-      sx_bool (dcur d =? len (dtext d));
-      sx_bool (match current_char d with Some c => c =? NL | None => true end);
+      sx_bool (is_cursor_at_the_end d);
+      sx_bool (is_cursor_at_the_end_of_line d);
       sx_str (leading_whitespace_in_current_line d);
-      sx_list sx_str (slice_from (lines d) (cursor_position_row d)) ].
+      sx_list sx_str (lines_from_current d) ].
 
 Definition d_oz (s : sx) : option (option Z) := as_opt as_Z s.
+
+(* pattern= : (kind s1 s2) *)
+Definition d_pat (s : sx) : option pat :=
+  match s with
+  | L [A kind; s1; s2] =>
+      match as_str s1, as_str s2 with
+      | Some s1, Some s2 =>
+          let p := if kind =? 0 then Some (PRuns s1 s2)
+                   else if kind =? 1 then (match s2 with [] => Some (PNeg s1) | _ => None end)
+                   else if kind =? 2 then (match s2 with [] => Some (PStar s1) | _ => None end)
+                   else None in
+          match p with
+          | Some p => if pat_wf p then Some p else None
+          | None => None
+          end
+      | _, _ => None
+      end
+  | _ => None
+  end.
 
 Definition run_op (d : doc) (op : sx) : sx :=
   match op with
@@ -201,6 +229,28 @@ Definition run_op (d : doc) (op : sx) : sx :=
         | _ => bad_case end
       else if code =? 31 then
         match args with [] => ok (A (empty_line_count_at_the_end d)) | _ => bad_case end
+      else if code =? 32 then
+        match args with
+        | [A n; w; p] =>
+            match as_bool w, d_pat p with
+            | Some w, Some p =>
+                match find_start_of_previous_word_wp d n w p with
+                | Some r => ok_oz r
+                | None => err_assert
+                end
+            | _, _ => bad_case end
+        | _ => bad_case end
+      else if code =? 33 then
+        match args with
+        | [w; p] =>
+            match as_bool w, d_pat p with
+            | Some w, Some p =>
+                match get_word_before_cursor_wp d w p with
+                | Some r => ok (sx_str r)
+                | None => err_assert
+                end
+            | _, _ => bad_case end
+        | _ => bad_case end
       else bad_case
   | _ => bad_case
   end.
@@ -210,6 +260,7 @@ Definition run_op (d : doc) (op : sx) : sx :=
 Definition run_C02 (c : sx) : sx :=
   match c with
   | L [A (-1); L ops] => run_cache_case ops
+  | L [A (-2); L ops] => run_slot_case ops
   | L [t; A cur; L ops] =>
       match as_str t with
       | Some t =>
